@@ -289,3 +289,57 @@ Proof.
       rewrite <- Hrun, Hout. cbn [do_step out]. rewrite <- app_assoc. reflexivity.
     + destruct Hpre as [Hg Hno]. split; [exact Hg | exact Hno].
 Qed.
+
+(* ---------- per operator ---------- *)
+
+Lemma before_bar_op_stream : forall route j id o, before_bar id (op_stream route j o) = op_stream route j (before_bar id o).
+Proof.
+  intros route j id. unfold op_stream. induction o as [|e o IH]; [reflexivity|]. destruct e as [s i|b]; cbn [filter before_bar].
+  - destruct (route s i =? j); cbn [filter before_bar]; rewrite IH; [destruct (route s i =? j) eqn:E; reflexivity || reflexivity | reflexivity].
+  - destruct (b =? id) eqn:E; cbn [filter before_bar]; rewrite ?E; [reflexivity|]. rewrite IH. reflexivity.
+Qed.
+
+Lemma after_bar_op_stream : forall route j id o, after_bar id (op_stream route j o) = op_stream route j (after_bar id o).
+Proof.
+  intros route j id. unfold op_stream. induction o as [|e o IH]; [reflexivity|]. destruct e as [s i|b]; cbn [filter after_bar].
+  - destruct (route s i =? j); cbn [filter after_bar]; exact IH.
+  - destruct (b =? id) eqn:E; cbn [filter after_bar]; rewrite ?E; [reflexivity|exact IH].
+Qed.
+
+Lemma in_op_stream_rec : forall route j o s i, In (Rec s i) (op_stream route j o) <-> In (Rec s i) o /\ route s i = j.
+Proof. intros. unfold op_stream. rewrite filter_In. rewrite N.eqb_eq. tauto. Qed.
+
+(* What the operators see: operator j holds, ahead of barrier id, exactly the records routed to it that lie
+   before the reported positions, and behind the barrier only records at or beyond them. *)
+Definition cut_exact_ops (steps : list step) : Prop :=
+  forall (route : N -> N -> N) j pre id post, steps = pre ++ SCkpt id :: post -> ~ In id (ckpts pre) ->
+    let st := run steps in
+    let pos := curs (run pre) in
+    In (id, pos) (reports st) /\
+    forall s,
+      match first_assigned pre s with
+      | Some c0 => exists p, get_cur pos s = Some p /\
+                   (forall i, In (Rec s i) (before_bar id (op_stream route j (out st))) <-> (c0 <= i < p /\ route s i = j)) /\
+                   (forall i, In (Rec s i) (after_bar id (op_stream route j (out st))) -> p <= i)
+      | None => get_cur pos s = None /\ (forall i, ~ In (Rec s i) (before_bar id (op_stream route j (out st))))
+      end.
+
+Theorem positions_match_cut_ops : forall steps, cut_exact_ops steps.
+Proof.
+  intros steps route j pre id post Hsteps Hfresh st pos. subst st pos.
+  destruct (positions_match_cut_all steps pre id post Hsteps Hfresh) as [Hrep Hs]. split; [exact Hrep|].
+  intro s. specialize (Hs s). rewrite before_bar_op_stream, after_bar_op_stream.
+  destruct (first_assigned pre s) as [c0|].
+  - destruct Hs as [p [Hg [Hle [Hb Ha]]]]. exists p. split; [exact Hg|]. split.
+    + intro i. rewrite in_op_stream_rec, Hb. tauto.
+    + intros i Hi. apply in_op_stream_rec in Hi. apply Ha. tauto.
+  - destruct Hs as [Hg Hno]. split; [exact Hg|]. intros i Hi. apply in_op_stream_rec in Hi. eapply Hno. apply Hi.
+Qed.
+
+(* resumption: a split assigned with cursor c emits nothing below c, and its first record is c *)
+Theorem resume_from_cursor : forall steps s c0, first_assigned steps s = Some c0 ->
+  forall i, In (Rec s i) (out (run steps)) -> c0 <= i.
+Proof.
+  intros steps s c0 H i Hi. pose proof (inv_run steps s) as Hinv. rewrite H in Hinv.
+  destruct Hinv as [c [_ [_ Hin]]]. apply Hin in Hi. lia.
+Qed.
